@@ -282,6 +282,7 @@ def correspond(ctx, cases, res):
         elif cur is not None:
             model[cur].append(line)
     dis, unmod, calls, unsafe, invbad, ncalls = [], {}, 0, [], [], 0
+    proto_fail_clean, proto_ok_clean = [], 0
     for c in traced:
         cid = c[0]
         real = res[cid]
@@ -300,6 +301,13 @@ def correspond(ctx, cases, res):
                 invbad.append((cid, l))
             if l.startswith("S ") and l != "S ok":
                 unsafe.append((cid, l))
+            if l.startswith("P "):
+                tr0 = [x for x in real if x.startswith("TR ")]
+                clean = bool(tr0) and " clean=1" in tr0[0]
+                if clean and l == "P ok":
+                    proto_ok_clean += 1
+                elif clean:
+                    proto_fail_clean.append(cid)
             if l.startswith("E "):
                 tr = [x for x in real if x.startswith("TR ")]
                 if tr:
@@ -316,6 +324,13 @@ def correspond(ctx, cases, res):
     cov["callbacks_replayed"] = ncalls
     cov["correspondence_disagreements"] = len(dis)
     cov["unmodelled_callbacks"] = unmod
+    # C08_init_location is conditional on the readers' init protocol (`initShape`): clean parses whose trace violates it are
+    # exactly where the theorem does not apply -- each of them must show up as a walker init finding, not silently
+    cov["clean_traces_following_init_protocol"] = proto_ok_clean
+    cov["clean_traces_violating_init_protocol"] = len(proto_fail_clean)
+    for cid in proto_fail_clean:
+        if not any(l.startswith("TWALK init:") for l in res[cid]):
+            dis.append((cid, "clean trace violates the init protocol but the walker sees every TA template with an init", ""))
     cov["driver_seconds"] = round(dt, 1)
     by = {c[0]: c for c in cases}
     if rc != 0:
